@@ -13,6 +13,8 @@ import dbgen
 
 ALPHA = csvtie.ALPHA + ["_none", "_tag_", "_field_", "t_", "f_", "tt", "ft", "_t", "é", " ", "\x1c", "\U0001F600"]
 KEY_HEADS = ["", "t", "f", "_", "t_", "f_", "_tag_", "_field_", "tf", "ft", "a", "_none", ",", '"', "\n"]
+EDGE = [" x", "x ", " ", "  ", "\tx", "x\t", '"', '""', "'", "''", 'a"b', "\r", "\n", "\r\n", "x\ny", ",", ";", "|", "\\", "\\n", "#x", "\ufeffx", "=1+1",
+        "_none ", " _none", "0", "-1", "1e5", "nan", "inf", "None", "t_x", "f_x", "_tag_x", "_field_x", "t", "f", "_", "é ", " \U0001F600"]
 DIALECTS = [dict(), dict(), dict(delimiter=";"), dict(delimiter="\t", quotechar="'"), dict(quoting=csv.QUOTE_ALL), dict(delimiter="|", quotechar="'", quoting=csv.QUOTE_ALL)]
 
 
@@ -176,9 +178,18 @@ def main(tier, seed):
         mism += [base + k for k in nums[1:]]
     # (3) through a real CSV file: insert, close, reopen, read (several dialects, both prefix styles, mixed in one file)
     file_runs = 0
-    for i in range(n_file):
-        kw = rng.choice(DIALECTS)
+    for i in range(n_file + len(DIALECTS)):
+        kw = rng.choice(DIALECTS) if i >= len(DIALECTS) else DIALECTS[i]
         pts = [rpoint(rng, reserved_ok=False) for _ in range(rng.choice([1, 2, 4]))]
+        if i < len(DIALECTS):
+            # a fixed battery per dialect: strings a reader option could eat (blanks at either end, quote and escape characters, comment and
+            # formula leaders, the key prefixes of the format as keys and values), spread over measurement, tag keys, tag values and field keys
+            pts = []
+            for j in range(0, len(EDGE), 3):
+                e = EDGE[j:j + 3]
+                pts.append({"time": dbgen.T0 + j * 1000000, "meas": e[0] if j % 2 == 0 else "m",
+                            "tags": dict(sorted({"k": e[0], e[-1]: e[1 % len(e)], "t_" + e[0]: "v"}.items())),
+                            "fields": dict(sorted({e[-1]: 1.5, "f_" + e[0]: None, "n": j}.items()))})
         d = ck.work / f"file{i}"
         d.mkdir()
         path = str(d / "db.csv")
